@@ -28,32 +28,82 @@ import (
 
 // ---- resolver seam of the real-domain probe (package variable resolveIp46ForRealDomainProbe) ----
 
+// Per-family outcome of the stubbed resolver.
+const (
+	VerifC18ProbeAddr   = 0 // the family answers with an address
+	VerifC18ProbeNoData = 1 // the family answers, no record (no error)
+	VerifC18ProbeErr    = 2 // the query of that family fails
+)
+
 var (
 	verifC18ProbeMu      sync.RWMutex
-	verifC18ProbeAnswers map[string]int // name -> 1: has an address, 0: resolves to nothing (no error); absent: both families fail
+	verifC18ProbeAnswers map[string][2]uint8 // name -> {A outcome, AAAA outcome}; absent: both families fail
+	verifC18ProbeDynamic func(host string) ([2]uint8, bool)
+	verifC18ProbeCalls   = map[string]int{}
 )
 
 // VerifC18InstallProbeResolver replaces the network resolver used by probeAndUpdateRealDomain with a
-// table and lengthens the negative-cache TTL (a package variable, 10 s in production) so that a
-// negative entry made through the production path outlives one run of the check.
-func VerifC18InstallProbeResolver(answers map[string]int) {
+// per-family table (dynamic, when not nil, answers names the table does not hold) and lengthens the
+// negative-cache TTL (a package variable, 10 s in production) so that a negative entry made through the
+// production path outlives one run of the check. The stub fills Ip46 / err4 / err6 independently per
+// family, like netutils.ResolveIp46 does.
+func VerifC18InstallProbeResolver(answers map[string][2]uint8, dynamic func(host string) ([2]uint8, bool)) {
 	verifC18ProbeMu.Lock()
 	verifC18ProbeAnswers = answers
+	verifC18ProbeDynamic = dynamic
 	verifC18ProbeMu.Unlock()
 	realDomainNegativeCacheTTL = time.Hour
 	resolveIp46ForRealDomainProbe = func(ctx context.Context, _ netproxy.Dialer, _ netip.AddrPort, host string, _ string, _ bool) (*netutils.Ip46, error, error) {
-		verifC18ProbeMu.RLock()
+		verifC18ProbeMu.Lock()
+		verifC18ProbeCalls[host]++
 		v, ok := verifC18ProbeAnswers[host]
-		verifC18ProbeMu.RUnlock()
+		dyn := verifC18ProbeDynamic
+		verifC18ProbeMu.Unlock()
+		if !ok && dyn != nil {
+			v, ok = dyn(host)
+		}
 		if !ok {
-			e := fmt.Errorf("verif: resolver unreachable for %q", host)
-			return &netutils.Ip46{}, e, e
+			v = [2]uint8{VerifC18ProbeErr, VerifC18ProbeErr}
 		}
-		if v == 1 {
-			return &netutils.Ip46{Ip4: netip.MustParseAddr("203.0.113.7")}, nil, nil
+		out := &netutils.Ip46{}
+		var err4, err6 error
+		switch v[0] {
+		case VerifC18ProbeAddr:
+			out.Ip4 = netip.MustParseAddr("203.0.113.7")
+		case VerifC18ProbeErr:
+			err4 = fmt.Errorf("verif: A query for %q failed", host)
 		}
-		return &netutils.Ip46{}, nil, nil
+		switch v[1] {
+		case VerifC18ProbeAddr:
+			out.Ip6 = netip.MustParseAddr("2001:db8:7::7")
+		case VerifC18ProbeErr:
+			err6 = fmt.Errorf("verif: AAAA query for %q failed", host)
+		}
+		return out, err4, err6
 	}
+}
+
+// VerifC18ProbeResolverCalls: how often the stubbed resolver was asked about host.
+func VerifC18ProbeResolverCalls(host string) int {
+	verifC18ProbeMu.RLock()
+	defer verifC18ProbeMu.RUnlock()
+	return verifC18ProbeCalls[host]
+}
+
+// WaitAsyncProbe waits for the verification probe that triggerRealDomainProbe started in the background for
+// name: first until the stubbed resolver has been asked (the probe runs), then it joins the probe's
+// singleflight slot, which returns only after probeAndUpdateRealDomain has finished updating the caches.
+// false = no probe showed up within the (generous, synchronisation-only) timeout.
+func (e *VerifC18Env) WaitAsyncProbe(name string, timeout time.Duration) bool {
+	deadline := time.Now().Add(timeout)
+	for VerifC18ProbeResolverCalls(name) == 0 {
+		if time.Now().After(deadline) {
+			return false
+		}
+		time.Sleep(50 * time.Microsecond)
+	}
+	_, _, _ = e.CP.realDomainProbeS.Do(name, func() (any, error) { return nil, nil })
+	return true
 }
 
 // ---- recording domain matcher ----
